@@ -139,6 +139,8 @@ def parseIterOp (s : String) : Option Text.IterOp :=
   | ['n'] => some .next
   | ['b'] => some .nextBack
   | ['s'] => some .sizeHint
+  | ['l'] => some .last
+  | ['c'] => some .count
   | 't' :: r => (String.ofList r).toNat?.map .nth
   | 'u' :: r => (String.ofList r).toNat?.map .nthBack
   | _ => none
